@@ -194,7 +194,7 @@ func Render(g *spec.Grammar, p Parts, o Options) string {
 			for _, ti := range append(append([]int{}, gr.lits...), gr.ids...) {
 				blocks = append(blocks, tokLine(tag, []int{ti}, true))
 			}
-		case coin(3) == 2 && tag != "":
+		case coin(3) == 2:
 			// tag and number declared separately (as in the repository's examples)
 			blocks = append(blocks, tokLine(tag, append(append([]int{}, gr.lits...), gr.ids...), false))
 			var numbered []int
